@@ -3,7 +3,6 @@ package checks
 import (
 	"errors"
 	"fmt"
-	"time"
 
 	"verifharness/ev"
 	"verifharness/memtr"
@@ -112,6 +111,10 @@ func c12Gen(tier string, seed int64) []ev.Case {
 		cs = append(cs, ev.MkCase("batch", c12Batch{Kind: "sel", From: from, To: from + 8, Seed: seed}))
 	}
 	cs = append(cs, ev.MkCase("batch", c12Batch{Kind: "ans-list", Seed: seed}))
+	// suites mixing hash families between authentication and integrity (legal, if unusual)
+	for _, p := range []refbmc.Suite{{Auth: 1, Integ: 4, Conf: 1}, {Auth: 3, Integ: 1, Conf: 1}, {Auth: 2, Integ: 4, Conf: 1}, {Auth: 1, Integ: 2, Conf: 1}} {
+		cs = append(cs, ev.MkCase("batch", c12Batch{Kind: "ans-axes", Proposal: p, Seed: seed}))
+	}
 	for _, p := range []refbmc.Suite{c12U[0], c12U[1], c12U[4]} {
 		cs = append(cs, ev.MkCase("batch", c12Batch{Kind: "ans-axes", Proposal: p, Seed: seed}))
 		if tier == "thorough" {
@@ -606,17 +609,18 @@ func c12Answer(run *ev.Run, a c12Ans) {
 	ctx, cancel := e.LimitCtx(20)
 	defer cancel()
 	var sess *bmc.V2Session
-	var err error
+	var err, devErr error
 	pv, st := safe(func() {
 		sess, err = e.ST.NewV2Session(ctx, &bmc.V2SessionOpts{
 			SessionOpts:  bmc.SessionOpts{Username: cfg.Username, Password: cfg.Password, MaxPrivilegeLevel: ipmi.PrivilegeLevelAdministrator},
 			CipherSuites: prefs,
 		})
 		if err == nil && sess != nil {
-			// a returned session must at least not blow up on first use
-			c2, cancel2 := bg(2 * time.Second)
+			// a returned session must at least not blow up on first use - and one on exactly the
+			// proposed and confirmed suite must work
+			c2, cancel2 := e.LimitCtx(4)
 			defer cancel2()
-			sess.GetDeviceID(c2)
+			_, devErr = sess.GetDeviceID(c2)
 		}
 	})
 	desc := fmt.Sprintf("proposal %v (caller's list %v) answered %v (bmc follows: %v, zero-length payload mask %d, length byte %#x on mask %d, connection used before: %v)", a.Proposal, a.List, a.Answer, a.Follow, a.ZeroLen, a.LenVal, a.LenMask, a.Used)
@@ -640,6 +644,8 @@ func c12Answer(run *ev.Run, a c12Ans) {
 	if a.Answer == a.Proposal {
 		if err != nil {
 			run.Violation("C12:confirmed-proposal-fails", fmt.Sprintf("%s: %v", desc, err), cs, nil)
+		} else if devErr != nil || len(problems(e.BMC)) > 0 {
+			run.Violation("C12:confirmed-suite-not-in-use", fmt.Sprintf("%s: the session was returned, but its first command failed (%v; BMC: %v): what is in use is not the suite that was proposed and confirmed", desc, devErr, problems(e.BMC)), cs, nil)
 		}
 		return
 	}
